@@ -21,13 +21,13 @@ func budget(env string, def time.Duration) time.Duration {
 func scaledPass(thorough bool) *passStats {
 	ps := &passStats{Complete: true, Parts: map[string]any{}, MaxPktSize: scaledMax}
 	B := 32 * scaledMax
-	dl := time.Now().Add(budget("VERIF_C11_BUDGET_SCALED_S", map[bool]time.Duration{false: 50 * time.Second, true: 14 * time.Minute}[thorough]))
+	dl := time.Now().Add(budget("VERIF_C11_BUDGET_SCALED_S", map[bool]time.Duration{false: 55 * time.Second, true: 14 * time.Minute}[thorough]))
 
 	// (1) every partition of every short stream: the full 7-form alphabet up to fullLen bytes, three
 	// 3-form alphabets up to maxLen bytes (2^(n-1) partitions per stream of n bytes)
-	fullLen, maxLen, maxLenTwin := 12, 16, 10
+	fullLen, maxLen, maxLenTwin, errLen := 12, 16, 10, 10
 	if thorough {
-		fullLen, maxLen, maxLenTwin = 14, 18, 12
+		fullLen, maxLen, maxLenTwin, errLen = 14, 18, 12, 12
 	}
 	fullAlpha := []blockForm{{1, 2}, {1, 3}, {3, 4}, {1, 5}, {5, 6}, {1, 7}, {3, 7}}
 	subAlphas := [][]blockForm{{{1, 2}, {1, 3}, {3, 7}}, {{3, 4}, {5, 6}, {1, 7}}, {{1, 2}, {1, 5}, {5, 7}}}
@@ -52,7 +52,7 @@ func scaledPass(thorough bool) *passStats {
 	for _, f := range []blockForm{{1, 9}, {1, 17}, {3, 18}, {5, 18}} {
 		addAll([]*stream{must(mkStream(fmt.Sprintf("short[%v]", f), []blockForm{f}))})
 	}
-	runs, ok := allPartitions("scaled", tFw, ss, dl)
+	runs, ok := allPartitions("scaled", tFw, ss, errLen, dl)
 	ps.Runs += runs
 	ps.Classes += int64(len(ss))
 	ps.Complete = ps.Complete && ok
@@ -67,7 +67,7 @@ func scaledPass(thorough bool) *passStats {
 			st2 = append(st2, s)
 		}
 	}
-	runs, ok = allPartitions("scaled", tTwin, st2, dl)
+	runs, ok = allPartitions("scaled", tTwin, st2, 0, dl)
 	ps.Runs += runs
 	ps.Classes += int64(len(st2))
 	ps.Complete = ps.Complete && ok
@@ -90,19 +90,29 @@ func scaledPass(thorough bool) *passStats {
 		if i == 3 {
 			near, head, zp = 12, 16, false // 2-byte blocks: 3000 positions; pairs restricted to neighbours + head
 		}
-		runs, ok := cutSets("scaled", tFw, st, pos, kk, true, zp, near, head, dl)
+		// every short read plain / +0-byte read / returned with the ignorable error / +read returning
+		// only that error; pairs: quick the plain pair and the combinations with the error answers,
+		// thorough all 16 combinations
+		pk := pairsWithErr
+		if zp {
+			pk = allPairs(kindsAll)
+		}
+		if i == 3 {
+			pk = [][2]uint8{{kPlain, kPlain}, {kErrWithData, kErrWithData}}
+		}
+		runs, ok := cutSets("scaled", tFw, st, pos, kk, kindsAll, pk, near, head, dl)
 		ps.Runs += runs
 		ps.Classes += runs - 1
 		ps.Complete = ps.Complete && ok
 		longParts = append(longParts, map[string]any{"stream": st.name, "bytes": len(st.data), "blocks": st.blocks(), "cut_positions": len(pos),
-			"max_short_reads": kk, "neighbour_window": near, "head": head, "zero_read_variant_in_pairs": zp, "runs": runs, "complete": ok})
+			"max_short_reads": kk, "neighbour_window": near, "head": head, "short_read_kinds": "plain, +0-byte read, with ignorable error, +error-only read", "pair_kind_combinations": len(pk), "runs": runs, "complete": ok})
 		if i == 0 {
 			ps.Samples = append(ps.Samples, fmt.Sprintf("scaled: stream %q (%d bytes = %.1f buffers, %d blocks): every placement of <= %d short reads (plain or followed by a 0-byte read) at %d boundary offsets: %d runs",
 				st.name, len(st.data), float64(len(st.data))/float64(B), st.blocks(), kk, len(pos), runs))
 		}
 		ps.Runs += uniform("scaled", tFw, st, []int{1, 2, 3, 5, 7, 23, 24, 25, 100, B - 1, B, B + 1})
 		// twin: single short reads + uniform chunkings
-		r2, ok2 := cutSets("scaled", tTwin, st, pos, 1, false, false, 0, 0, dl)
+		r2, ok2 := cutSets("scaled", tTwin, st, pos, 1, kindsPlain, nil, 0, 0, dl)
 		ps.Runs += r2 + uniform("scaled", tTwin, st, []int{1, 2, 3, 7, 24, 100, 4095, 4096, 4097})
 		ps.Classes += r2 - 1
 		ps.Complete = ps.Complete && ok2
@@ -144,7 +154,11 @@ func realPass(thorough bool) *passStats {
 			}
 		}
 		pos := st.cutPositions(filter)
-		runs, ok := cutSets("real", tFw, st, pos, kk, i != 3, false, near, head, dl)
+		sk := kindsAll
+		if i == 3 {
+			sk = []uint8{kPlain, kErrWithData}
+		}
+		runs, ok := cutSets("real", tFw, st, pos, kk, sk, [][2]uint8{{kPlain, kPlain}, {kErrWithData, kErrWithData}}, near, head, dl)
 		ps.Runs += runs
 		ps.Classes += runs - 1
 		ps.Complete = ps.Complete && ok
@@ -161,7 +175,7 @@ func realPass(thorough bool) *passStats {
 		ps.Runs += uniform("real", tFw, st, ch)
 		// twin: single short reads (mixed stream only) + uniform chunkings
 		if i == 0 {
-			r2, ok2 := cutSets("real", tTwin, st, pos, 1, false, false, 0, 0, dl)
+			r2, ok2 := cutSets("real", tTwin, st, pos, 1, kindsPlain, nil, 0, 0, dl)
 			ps.Runs += r2
 			ps.Classes += r2 - 1
 			ps.Complete = ps.Complete && ok2
